@@ -486,6 +486,61 @@ func genMsgTrunc(gi *genInfo) []*input {
 			}
 		}
 	}
+	// well-formed hellos that offer another protocol version: legacy_version rewritten, with the genuine
+	// extension block and with every extension removed (no supported_versions): what a peer speaking
+	// DTLS 1.0, a future version or plain TLS would send as its first message
+	for _, m := range genuineMessages(gi) {
+		if (m.typ != 1 && m.typ != 2) || len(m.body) < 40 || m.fromClient == gi.victimIsClient {
+			continue
+		}
+		// hello body: version(2) random(32) session_id<1> [cookie<1> (ClientHello)] ... extensions<2> at the end
+		noExt := func(b []byte) []byte {
+			p := 34
+			if p >= len(b) {
+				return nil
+			}
+			p += 1 + int(b[p]) // session id
+			if m.typ == 1 {
+				if p >= len(b) {
+					return nil
+				}
+				p += 1 + int(b[p]) // cookie
+				if p+2 > len(b) {
+					return nil
+				}
+				p += 2 + (int(b[p])<<8 | int(b[p+1])) // cipher suites
+				if p >= len(b) {
+					return nil
+				}
+				p += 1 + int(b[p]) // compression methods
+			} else {
+				p += 3 // cipher suite + compression method
+			}
+			if p > len(b) {
+				return nil
+			}
+			return append([]byte(nil), b[:p]...)
+		}
+		for _, ver := range [][2]byte{{0xfe, 0xff}, {0xfe, 0xfc}, {0x03, 0x03}, {0x03, 0x04}, {0x00, 0x00}, {0xff, 0xff}} {
+			for _, strip := range []bool{false, true} {
+				b := append([]byte(nil), m.body...)
+				if strip {
+					if b = noExt(b); b == nil {
+						continue
+					}
+				}
+				b[0], b[1] = ver[0], ver[1]
+				k := fmt.Sprintf("%d/%x", m.typ, b)
+				if seenBody[k] {
+					continue
+				}
+				seenBody[k] = true
+				seq++
+				g.raw(fmt.Sprintf("genuine %s#%d with legacy_version=%02x%02x, extensions removed=%v, at mseq=cur", world.HSName(m.typ), m.mseq, ver[0], ver[1], strip),
+					plain12(22, 0, seq, hsMessage(m.typ, gi.cur, b)))
+			}
+		}
+	}
 	// key-exchange bodies of length 0..3
 	small := [][]byte{{}, {0}, {1}, {0xff}, {0, 0}, {0, 1}, {1, 0}, {0xff, 0xff}, {0, 0, 0}, {0, 0, 1}, {0, 1, 0}, {3, 0, 0x1d}}
 	for _, t := range []byte{16, 12} {
